@@ -7,7 +7,8 @@ NOTES = ("Static analysis only (see DESIGN.md). Each claimed check decides struc
          "methods, mirror comparisons / if-else, expand augmented assignments) must be silent; any miss is exit 2.")
 
 _TB = ("Trusted base: CPython's ast parser, the statement CFG builder in sa/cfg.py (feasibility-insensitive), mypy's "
-       "type inference where the rule joins on resolved callees/types, and the rule tables in sa/rules. ")
+       "type inference where the rule joins on resolved callees/types, the normalisation done before rules run (inlining of "
+       "new helpers in sa/inline.py, spelling recovery in sa/localnames.py), and the rule tables in sa/rules. ")
 
 CLAIMS = {
  "C13": dict(
